@@ -127,53 +127,55 @@ fn iloc_monotone_x() {
 /// the harness interval is widened to [a - 1.25 w, a + 2.25 w] so that the few ulps of rounding in the
 /// computation of a mirror image (2 * projection - x; shown to be the exact reflection over the reals
 /// by Engine M) are covered with a margin of w/4.
-fn any_position(ax: usize, periodic: bool) {
+fn any_position(ax: usize, periodic: bool, seg: u8) {
     let a: f64 = kani::any();
     let w: f64 = kani::any();
     let x: f64 = kani::any();
     let h: f64 = kani::any();
     kani::assume(a >= -A_MAX && a <= A_MAX);
     kani::assume(w >= W_MIN && w <= W_MAX);
-    // margin h with 0 <= 4h <= W (no multiplication in the harness: additions only)
     // (A, W): the box whose walls produce the mirror images (tripled when periodic)
     let (aa, ww) = if periodic { (a - w, w + w + w) } else { (a, w) };
+    // margin h with 0 <= 4h <= W (additions only in the harness)
     kani::assume(h >= 0. && h + h + h + h <= ww);
-    kani::assume(x >= aa - ww - h && x <= aa + ww + ww + h);
+    // the interval [A - W - h, A + 2W + h] is split into four segments (one harness each)
+    match seg {
+        0 => kani::assume(x >= aa - ww - h && x <= aa),
+        1 => kani::assume(x >= aa && x <= aa + ww),
+        2 => kani::assume(x >= aa + ww && x <= aa + ww + ww),
+        _ => kani::assume(x >= aa + ww + ww && x <= aa + ww + ww + h),
+    }
     let b = vh::Boundary::cuboid(axis(ax, a, 0.0), axis(ax, w, 1.0), periodic, Dimensionality::ThreeD);
     // dev profile: the debug assertions of iloc (rescaled coordinate in [1,2)) are checked as well
     let il = b.iloc(axis(ax, x, 0.5));
     assert!(in_range(il));
 }
 
-#[kani::proof]
-fn iloc_any_position_x() {
-    any_position(0, false);
+macro_rules! seg_harness {
+    ($name:ident, $ax:expr, $per:expr, $seg:expr) => {
+        #[kani::proof]
+        fn $name() {
+            any_position($ax, $per, $seg);
+        }
+    };
 }
 
-#[kani::proof]
-fn iloc_any_position_y() {
-    any_position(1, false);
-}
-
-#[kani::proof]
-fn iloc_any_position_z() {
-    any_position(2, false);
-}
-
-#[kani::proof]
-fn iloc_any_position_periodic_x() {
-    any_position(0, true);
-}
-
-#[kani::proof]
-fn iloc_any_position_periodic_y() {
-    any_position(1, true);
-}
-
-#[kani::proof]
-fn iloc_any_position_periodic_z() {
-    any_position(2, true);
-}
+seg_harness!(iloc_x_below, 0, false, 0);
+seg_harness!(iloc_x_box, 0, false, 1);
+seg_harness!(iloc_x_above, 0, false, 2);
+seg_harness!(iloc_x_top, 0, false, 3);
+seg_harness!(iloc_y_below, 1, false, 0);
+seg_harness!(iloc_y_box, 1, false, 1);
+seg_harness!(iloc_y_above, 1, false, 2);
+seg_harness!(iloc_y_top, 1, false, 3);
+seg_harness!(iloc_z_below, 2, false, 0);
+seg_harness!(iloc_z_box, 2, false, 1);
+seg_harness!(iloc_z_above, 2, false, 2);
+seg_harness!(iloc_z_top, 2, false, 3);
+seg_harness!(iloc_periodic_x_below, 0, true, 0);
+seg_harness!(iloc_periodic_x_box, 0, true, 1);
+seg_harness!(iloc_periodic_x_above, 0, true, 2);
+seg_harness!(iloc_periodic_x_top, 0, true, 3);
 
 /// vacuity witness: the assumptions of `setup` are satisfiable and the assertion is reached
 #[kani::proof]
